@@ -982,11 +982,12 @@ class SmiV2Parser(AbstractParser):
     def p_Compliances(self, p):
         """Compliances : Compliances Compliance
                        | Compliance"""
+        # OBJECT refinements are skipped (None), GROUPs are collected
         n = len(p)
         if n == 3:
-            p[0] = p[1] and p[2] and ('Compliances', p[1][1] + [p[2]]) or p[1]
+            p[0] = ('Compliances', p[1][1] + (p[2] and [p[2]] or []))
         elif n == 2:
-            p[0] = p[1] and ('Compliances', [p[1]]) or None
+            p[0] = ('Compliances', p[1] and [p[1]] or [])
 
     def p_Compliance(self, p):
         """Compliance : ComplianceGroup
